@@ -1193,12 +1193,14 @@ TERMINATE:
 			{
 				*status = QS_LP_OPTIMAL;
 			}
-			else if (lp->basisstat.primal_infeasible || lp->basisstat.dual_unbounded)
+			/* the problem-level flag: a primal infeasible *basis* (dual phase I
+			 * stopped on one) says nothing about the LP */
+			else if (lp->probstat.primal_infeasible || lp->basisstat.dual_unbounded)
 			{
 				*status = QS_LP_INFEASIBLE;
 				if (it.sdisplay)
 				{
-					if (lp->basisstat.primal_infeasible)
+					if (lp->probstat.primal_infeasible)
 						QSlog("Primal Infeasible");
 					else
 						QSlog("Dual Unbounded");
